@@ -232,5 +232,25 @@ func Run(targets Targets, label string) error {
 	r := runner{targetLoader: targets, gate: newGate(runtime.NumCPU())}
 	t := r.getTarget(label)
 	t.start(&r)
-	return t.wait()
+	err := t.wait()
+
+	// A target that fails with a cyclic dependency error returns without waiting for the other
+	// targets it started. Do not return to the caller (who may tear down the event sink or start
+	// another run) while any target is still executing.
+	for running := true; running; {
+		running = false
+		r.targetMap.Range(func(_, tv any) bool {
+			tt := tv.(*target)
+			tt.m.Lock()
+			if tt.status == statusRunning {
+				running = true
+			}
+			tt.m.Unlock()
+			if running {
+				tt.wait()
+			}
+			return !running
+		})
+	}
+	return err
 }
